@@ -30,10 +30,12 @@ type FileSource struct {
 }
 
 type ResolvedJournal struct {
-	Primary   *ast.Journal
-	Files     map[string]*ast.Journal
-	FileOrder []string
-	Errors    []LoadError
+	Primary *ast.Journal
+	// PrimaryPath is the file Primary was read from ("" if unknown).
+	PrimaryPath string
+	Files       map[string]*ast.Journal
+	FileOrder   []string
+	Errors      []LoadError
 }
 
 func NewResolvedJournal(primary *ast.Journal) *ResolvedJournal {
